@@ -5,6 +5,7 @@ package worker
 import (
 	"encoding/json"
 	"fmt"
+	"github.com/pion/ice/v4"
 	"os"
 	"runtime"
 	"runtime/debug"
@@ -110,6 +111,13 @@ func runBubble(t *testing.T, spec *core.Spec, tp *tape.Tape, tier string, trace 
 				time.Sleep(60 * time.Second)
 				synctest.Wait()
 			}()
+			// Ties between select cases that are ready together (a cancellation and a hand-off to the loop) are
+			// the runtime's random choice unless somebody decides them. Checks that run under the goroutine
+			// scheduler install their own, tape-driven decision; for all others the choice is fixed per run -
+			// the same in every process, different from run to run, both outcomes being legal.
+			pick := run
+			ice.VerifSetPick(func(_ string, n int) int { return pick % n })
+			defer ice.VerifSetPick(nil)
 			spec.Fn(ctx)
 		})
 	}()
